@@ -50,6 +50,16 @@ def main():
             if args and prop not in args:
                 continue
             jobs.append((prop, os.path.join(os.path.dirname(m), "patch.diff"), "seeded/" + os.path.basename(os.path.dirname(m))))
+    if "--only-missing" in sys.argv:
+        # skip what mutants/RESULTS.txt already records as CAUGHT (the file is appended to with --record)
+        done = set()
+        rf = os.path.join(V, "mutants", "RESULTS.txt")
+        if os.path.exists(rf):
+            for l in open(rf):
+                parts = l.split()
+                if len(parts) >= 3 and parts[2] == "CAUGHT":
+                    done.add(parts[0])
+        jobs = [j for j in jobs if j[2] not in done]
     nj = 1
     for a in sys.argv[1:]:
         if a.startswith("--jobs="):
